@@ -1864,6 +1864,11 @@ func (ctx Ctx) assignStmt(s *ast.AssignStmt) coq.Binding {
 		token.XOR_ASSIGN: coq.OpXor,
 	}
 	if op, ok := assignOps[s.Tok]; ok {
+		// the operand is translated twice (once to read it, once to store into
+		// it), which is only correct if evaluating it has no effects
+		if ctx.hasCall(lhs) {
+			ctx.unsupported(s, "%v assignment to an operand containing a function call", s.Tok)
+		}
 		rhs = coq.BinaryExpr{
 			X:  ctx.expr(lhs),
 			Op: op,
@@ -1873,6 +1878,27 @@ func (ctx Ctx) assignStmt(s *ast.AssignStmt) coq.Binding {
 		ctx.unsupported(s, "%v assignment", s.Tok)
 	}
 	return ctx.assignFromTo(s, lhs, rhs)
+}
+
+// hasCall reports whether evaluating e involves a function or method call
+// (conversions and the builtins len and cap do not count)
+func (ctx Ctx) hasCall(e ast.Expr) bool {
+	found := false
+	ast.Inspect(e, func(n ast.Node) bool {
+		call, ok := n.(*ast.CallExpr)
+		if !ok {
+			return true
+		}
+		if tv, ok := ctx.info.Types[call.Fun]; ok && tv.IsType() {
+			return true
+		}
+		if ctx.isBuiltinIdent(call.Fun, "len") || ctx.isBuiltinIdent(call.Fun, "cap") {
+			return true
+		}
+		found = true
+		return false
+	})
+	return found
 }
 
 func (ctx Ctx) incDecStmt(stmt *ast.IncDecStmt) coq.Binding {
